@@ -101,7 +101,8 @@ def build_hist(bdir, step):
 RULE_HIST = ("explicit-state BFS: a state is the canonical serialisation of the whole eav_t (all fields, result record by value, callbacks by name, allocator/resolver ledgers) "
              "plus the harness model variables; every state is distinct by construction of the visited set; every transition is one real library call sequence replayed on a fresh poisoned object; "
              "distinct_nontrivial = number of distinct states reached (plus, for C19, the fault runs)")
-check('C13', level='model_checking', steps=[dict(builder=build_hist, name='hist-c13', prop='C13', backends=['idn2'])],
+check('C13', level='model_checking', steps=[dict(builder=build_hist, name='hist-c13', prop='C13', backends=['idn2']),
+                                             dict(builder=build_hist, name='hist-c13-two-objects', prop='C13', backends=['idn2'], xargs=['--two-objects'])],
       rule=RULE_HIST, deadline=dict(quick=240, thorough=2400),
       mc_keys=dict(states='states', transitions='transitions'), traces_key='histories_replayed')
 
